@@ -1,0 +1,70 @@
+//go:build verif
+
+package zenodb
+
+import (
+	"time"
+
+	"github.com/getlantern/zenodb/common"
+)
+
+// SimApplied returns a copy of the WAL offsets applied so far to the memstore
+// of the named table (nil if the table has no row store).
+func (db *DB) SimApplied(table string) common.OffsetsBySource {
+	t := db.getTable(table)
+	if t == nil || t.rowStore == nil {
+		return nil
+	}
+	rs := t.rowStore
+	rs.mx.RLock()
+	defer rs.mx.RUnlock()
+	if rs.memStore == nil {
+		return nil
+	}
+	result := make(common.OffsetsBySource, len(rs.memStore.offsetsBySource))
+	for source, offset := range rs.memStore.offsetsBySource {
+		result[source] = append([]byte(nil), offset...)
+	}
+	return result
+}
+
+// SimStorageShape describes where the named table's data currently lives.
+func (db *DB) SimStorageShape(table string) (filename string, flushCount int, memRows int) {
+	t := db.getTable(table)
+	if t == nil || t.rowStore == nil {
+		return "", 0, 0
+	}
+	rs := t.rowStore
+	rs.mx.RLock()
+	defer rs.mx.RUnlock()
+	if rs.fileStore != nil {
+		filename = rs.fileStore.filename
+	}
+	if rs.memStore != nil {
+		memRows = rs.memStore.tree.Length()
+	}
+	return filename, rs.flushCount, memRows
+}
+
+// SimAdvanceClock advances the database clock (a no-op for the real clock).
+func (db *DB) SimAdvanceClock(ts time.Time) {
+	db.clock.Advance(ts)
+}
+
+// SimNow returns the database clock's current time.
+func (db *DB) SimNow() time.Time {
+	return db.clock.Now()
+}
+
+// SimTableNames returns the names of all non-virtual tables.
+func (db *DB) SimTableNames() []string {
+	db.tablesMutex.RLock()
+	defer db.tablesMutex.RUnlock()
+	names := make([]string, 0, len(db.tables))
+	for name, t := range db.tables {
+		if !t.Virtual {
+			names = append(names, name)
+		}
+	}
+	return names
+}
